@@ -457,7 +457,41 @@ class Node:
         return True
 
     # -- restarts ---------------------------------------------------------
+    def _released_names(self):
+        """State written by the released version: a container that runs for a cache entry is named after the entry by
+        the documented formula (instance id, inode and creation time in microseconds, 77 bits in base 62, 13 characters).
+        A manager restart (what an upgrade implies) meets containers under THOSE names: where the name on disk is
+        another one it is put right (directory and running link).  The harness carries its own copy of the formula."""
+        import string
+        numerals = string.digits + string.ascii_lowercase + string.ascii_uppercase
+        for name in sorted(os.listdir(self.running_dir)):
+            link = os.path.join(self.running_dir, name)
+            cache = self.cache_path(name)
+            try:
+                target = os.readlink(link)
+                st = os.stat(cache)
+            except OSError:
+                continue
+            have = os.path.basename(target)
+            mine = read_marker(cache)
+            runs = read_marker(os.path.join(self.apps_dir, have, 'data', 'manifest.yml'))
+            if mine is None or runs is None or mine[:2] != runs[:2]:
+                continue        # not the container of the present cache entry
+            seed = ((int(st.st_ctime * 10 ** 6) << 64) + ((int(st.st_ino) ^ (int(name.rpartition('#')[2]) << 31)) & (2 ** 64 - 1))) & (2 ** 77 - 1)
+            digits = ''
+            while seed:
+                seed, r = divmod(seed, 62)
+                digits = numerals[r] + digits
+            want = '%s-%s' % (name.replace('#', '-'), (digits or '0').rjust(13, '0'))
+            self._count('running_containers_checked_against_released_name_formula')
+            if want != have and not os.path.exists(os.path.join(self.apps_dir, want)):
+                os.rename(os.path.join(self.apps_dir, have), os.path.join(self.apps_dir, want))
+                os.unlink(link)
+                os.symlink(os.path.join(os.path.dirname(target), want), link)
+                self._count('running_containers_renamed_to_released_name')
+
     def restart_manager(self):
+        self._released_names()
         if RELATIVE_LINKS:
             # links left by an earlier release: same container, relative target
             for name in os.listdir(self.running_dir):
